@@ -195,10 +195,16 @@ CHECKS['C05'] = dict(
          'cards, with "is a valid hand of the type" and "entry index" as free symbols per card set. For every (hole, board) count of the '
          'domain the result is proved to be made of a combination the statement allows (any five; both hole plus three board cards; exactly '
          'two hole plus three board cards; the largest valid subset), to be at least as strong as every legal combination, and ValueError / '
-         'None to occur exactly when no legal combination exists. Hole and board cards are passed both as tuples and as one-shot iterators.',
+         'None to occur exactly when no legal combination exists. Hole and board cards are passed both as tuples and as one-shot iterators. '
+         'In addition (label D-infinity, contracts/c05inf.py) the three looping from_game bodies are proved for ANY number of cards: '
+         'itertools.combinations is an abstract stream of arbitrary length, each loop is cut by the sidecar invariant "the running maximum is the '
+         'best valid candidate among those consumed" (induction on the candidates consumed, first-order quantifiers over the stream index), and '
+         'super().from_game is replaced by the contract of the next level, proved by its own task.',
     design_ref='DESIGN.md section 4 (C05), section 8',
-    note='D/shape in the card counts: quick a thinned set up to 7 cards (Omaha up to 4+4, 3+5), thorough every (hole, board) with at most 7 '
-         'cards plus 3+5, Omaha up to 5+5; the hand tables themselves are C04; itertools.combinations trusted as documented.',
+    note='Two halves: the loop logic (running maximum, skipping invalid candidates, ValueError iff none valid) is unbounded; that the streams '
+         'are the composition rule of the statement is D/shape in the card counts: quick a thinned set up to 7 cards (Omaha up to 4+4, 3+5), '
+         'thorough every (hole, board) with at most 7 cards, Omaha up to 5+5; the hand tables themselves are C04; itertools.combinations '
+         'trusted as documented.',
     technique='sidecar contracts + own VC generator over the real AST (abstract cards, uninterpreted validity / strength per card set) + z3')
 
 CHECKS['C07'] = dict(
